@@ -81,6 +81,8 @@ def mk_space(kind='rn', field='real', prec='double', weighting='none', shape='1d
         elif bdry != 'False':
             name += '-bdry'
     lab['space'] = name
+    if cplx:
+        lab['field'] = 'complex'
     if prec == 'single':
         lab['dtype'] = 'complex64' if cplx else 'float32'
     elif cplx and kind != 'rn':
